@@ -267,6 +267,48 @@ func generate(w *World, cs *Contracts, ms *ModSets, o runOpts) ([]*Obligation, [
 		obls = append(obls, ob)
 		rep.Obligations = 1
 	}
+	for _, td := range cs.Trans {
+		if !hasProp(td.Props, o.property) || o.only != "" {
+			continue
+		}
+		name := td.Pkg + "." + td.Func
+		rep := &FuncReport{Key: "transition table " + name}
+		reps = append(reps, rep)
+		ob := &Obligation{Name: name + ":transitions.documented", Kind: "table", Func: name, Goal: "true", Props: td.Props,
+			Text:   "every (source, destination) pair of the state-machine table returned by " + name + " is a documented transition",
+			Result: &SolveResult{Status: "unsat", Backend: "table-evaluator"}}
+		ob2 := &Obligation{Name: name + ":transitions.deterministic", Kind: "table", Func: name, Goal: "true", Props: td.Props,
+			Text:   "every (event, source) pair of the table has at most one destination",
+			Result: &SolveResult{Status: "unsat", Backend: "table-evaluator"}}
+		triples, err := evalTransitions(w, td)
+		if err != nil {
+			ob.Result = &SolveResult{Status: "error", Output: err.Error()}
+		} else {
+			var bad, nondet []string
+			seen := map[string]string{}
+			for _, t := range triples {
+				if t[0] != t[1] && !td.Allowed[t[0]+">"+t[1]] {
+					bad = append(bad, t[0]+" -> "+t[1]+" (event "+t[2]+")")
+				}
+				k := t[2] + "|" + t[0]
+				if d, ok := seen[k]; ok && d != t[1] {
+					nondet = append(nondet, "event "+t[2]+" from "+t[0]+" goes to "+d+" and "+t[1])
+				}
+				seen[k] = t[1]
+			}
+			if len(triples) == 0 {
+				bad = append(bad, "the table is empty")
+			}
+			if len(bad) > 0 {
+				ob.Result = &SolveResult{Status: "sat", Backend: "table-evaluator", Output: "undocumented transitions: " + strings.Join(bad, "; ")}
+			}
+			if len(nondet) > 0 {
+				ob2.Result = &SolveResult{Status: "sat", Backend: "table-evaluator", Output: strings.Join(nondet, "; ")}
+			}
+		}
+		obls = append(obls, ob, ob2)
+		rep.Obligations = 2
+	}
 	for _, ud := range cs.Unreach {
 		if !hasProp(ud.Props, o.property) || o.only != "" {
 			continue
